@@ -24,8 +24,9 @@ import traceback
 import typing
 
 from ..gen import EXTRA, GEN_DIR, REPO, Kernel, Untranslatable, register
+from . import c20_guards
 
-CONFIG_IMPORT = ("DirectVerif.Model.Config",)
+CONFIG_IMPORT = ("DirectVerif.Model.Config", "DirectVerif.Model.ConfigGuard")
 
 # strings the correspondence check uses for mutated inputs; interned so that they have code points
 EXTRA_SYMBOLS = [
@@ -38,6 +39,12 @@ EXTRA_SYMBOLS = [
     "seed", "mode", "center_fractions", "uniform_range", "loss", "losses", "function", "multiplier", "l1_loss", "metrics",
     "CalgaryCampinas", "FastMRI", "H5Slice", "unet.Unet2d", "Unet2d", "UNET", "unet", "scaling_key", "normalization",
     "image_center_crop", "padding_eps", "use_seed", "delete_kspace", "estimate_sensitivity_maps", "sensitivity_map_estimation",
+    # phase 3: spellings the guard / dispatch candidates use
+    "SGD", "AdamW", "adam", "Adam", "HEADER", "header", "0.5", "1.0", "0.0", "5.0", "zero_filled", "ZERO_FILLED", "zeros", "ZEROS",
+    "input_image", "INPUT_IMAGE", "input_kspace", "INPUT_KSPACE", "normunet", "NORMUNET", "resnet", "RESNET", "didn", "DIDN",
+    "conv", "CONV", "mwcnn", "MWCNN", "slice", "SLICE", "time", "TIME", "FR", "fr", "PRP", "prp", "DY", "dy", "BAN", "ban",
+    "steps", "sensitivity_map_model", "kspace_context", "subsampling_scheme", "spatial_shape", "sample_size", "num_coils",
+    "optimizer", "num_steps", "auxiliary_steps",
 ]
 
 CONFIG_SOURCES = ["direct/config/defaults.py", "direct/data/datasets_config.py", "direct/common/subsample_config.py"]
@@ -587,6 +594,7 @@ def emit(info: Info) -> tuple[str, dict]:
     cfg_entries = []
     for rel, c in I.configs:
         cfg_entries.append(f"({I.S(rel)}, {pool.val(c)})")
+    phase3_text, phase3_status = c20_guards.emit_phase3(I, pool, packed, chunked)
     out.append(f"/-- interned strings: `Sym` -> code points ({len(I.symbols)} entries) -/")
     out.append(chunked("symbols", "List PStr", [packed(s) for s in I.symbols]))
     out.append("/-! hash-consed YAML containers and dataclass defaults -/")
@@ -666,8 +674,11 @@ def emit(info: Info) -> tuple[str, dict]:
   kBackward := {k('backward_operator')}
 """)
     out.append(f"def transformSchema : Ty := {ty_or_any('direct.data.datasets_config', 'TransformsConfig')}")
+
     out.append(f"/-- the {len(cfg_entries)} shipped configuration files: (path, tree) -/")
     out.append("def configs : List (Sym × Val) := [\n  " + ",\n  ".join(cfg_entries) + "]\n")
+    out.append(phase3_text)
+    status.update(phase3_status)
     status["schemas"] = f"introspected: {len(emitted)} dataclasses"
     status["configs"] = f"parsed: {len(cfg_entries)} YAML files, {len(pool.defs)} distinct containers"
     status["modules"] = f"imported: {len(I.modules)}"
@@ -1027,3 +1038,7 @@ register("C20", [
     Kernel("dictFlattenShape", "direct/utils/__init__.py", "dict_flatten", [], "([1, 1, 1, 1] : List Nat)", _dict_flatten_shape,
            ret_type="List Nat"),
 ])
+
+
+def _phase3(info: Info, mods: dict):
+    c20_guards.collect(info, mods, REPO)
